@@ -18,7 +18,6 @@ from .types import (
     EnumValue,
     InputObjectType,
     InterfaceType,
-    NonNullType,
     ObjectType,
     UnionType,
     is_input_type,
@@ -441,7 +440,8 @@ class SchemaValidator:
             for arg in object_field.arguments:
                 interface_arg = field.argument_map.get(arg.name, None)
                 if interface_arg is None:
-                    if isinstance(arg.type, NonNullType):
+                    # A non null argument with a default value is optional.
+                    if arg.required:
                         self.add_error(
                             'Object field argument "%s.%s" is of required type '
                             '"%s" but is not provided by interface field "%s"'
